@@ -23,6 +23,7 @@ class Owner(models.Model):
     age = models.IntegerField(null=True)
     rank = models.IntegerField(default=0)
     org = models.ForeignKey(Org, null=True, on_delete=models.SET_NULL, related_name="owners")
+    region = models.ForeignKey(Region, null=True, on_delete=models.SET_NULL, related_name="direct_owners")
 
     class Meta:
         app_label = "djapp"
